@@ -20,6 +20,18 @@ def generate(prop, seed, tier):
     last = desc["ops"][-1]
     last["cfg"]["max_errors"] = rng.choice([0, 0, 2, None])
     last["cfg"]["max_workers"] = rng.choice([1, 2, 3, 4])
+    if rng.random() < 0.3:
+        # file-backed world: non-source stores are real PickleFileStore files; cut positions then include every
+        # file operation (open / raw write / close / replace, before and after) of every store write
+        derived = ref.derived_stores(desc["world"])
+        # (a store whose write also feeds a linked source store is kept in memory: its two effects are atomic there)
+        names = [n["store"] for n in desc["world"]["nodes"] if n.get("store") and n["kind"] != "src"
+                 and n["store"] not in derived and not desc["world"]["stores"][n["store"]].get("feeds")]
+        for nm in names:
+            desc["world"]["stores"][nm]["flavour"] = "plain"
+        if names:
+            desc["file_stores"] = names
+            last["cfg"]["buffer_size"] = rng.choice([8192, 64, 16])
     return desc
 
 
@@ -43,8 +55,17 @@ def _restore(hist, st):
 
 
 def execute(prop, desc):
+    hist = None
+    try:
+        hist = _prefix(desc)
+        return _execute(prop, desc, hist)
+    finally:
+        if hist is not None:
+            hist.cleanup()
+
+
+def _execute(prop, desc, hist):
     world = desc["world"]
-    hist = _prefix(desc)
     st0 = _state(hist)
     idx = len(desc["ops"]) - 1
     op = desc["ops"][-1]
@@ -129,7 +150,12 @@ def o_after_cut(rec, world, hist):
             continue
         if hist.disk.mtime(name) is None:
             continue
-        got = hist.disk.value(name)
+        try:
+            got = hist.disk.value(name)
+        except Exception as e:
+            out.append(O.V("uptodate-but-unreadable", f"after the cut, store {name} (node {n['id']}) looks up to date but "
+                                                      f"cannot be read back: {e!r}"))
+            return out
         if not typed_equal(got, stores[name]):
             out.append(O.V("uptodate-but-wrong", f"after the cut, store {name} (node {n['id']}) looks up to date but holds "
                                                  f"{canon(got)[:160]}; from scratch: {canon(stores[name])[:160]}"))
